@@ -22,13 +22,18 @@ RULE = ("Reaction systems are built by construction (vlib/gen_c03.py): 0-8 react
         "net stoichiometries, own pair search, list models for subset / + / += / concatenate (reactions compared by "
         "identity), Fractions for the elemental bounds and for states reached along exact null-space directions of the "
         "composition matrix.  The state machine keeps a pool of systems with a model (ordered substance keys, list of "
-        "reaction ids) and applies new / += reactions / += system / + / subset(pred) / split->part / concatenate, "
+        "reaction ids) and applies new / += reactions / += system / + / subset(pred) / split->part / concatenate of "
+        "2-5 pool systems, "
         "checking every result and every structural query on it.  Non-trivial = >= 2 components or a catalyst or a "
         "species in no reaction (plain sub-checks); a subset or split after an addition (machine runs).")
 ASSUMPTIONS = ["upper_conc_bounds is float arithmetic over non-negative terms: compared with relative tolerance 1e-12",
                "split parts are the components that contain at least one reaction (a species in no reaction forms no part)",
                "identify_equilibria: exact comparison when every reaction has at most one reverse partner, otherwise "
                "only 'every reported pair is a genuine i<j forward/backward pair'",
+               "concatenate: a reaction of a later operand is a duplicate iff its four stoichiometry dicts equal those of "
+               "a reaction already in the sum (first system or any earlier operand); a stoichiometry repeated *inside* one "
+               "later operand (first occurrence new) may stay in the sum (implementation) or go to the duplicates "
+               "(docstring) - either is accepted, order and exactly-once are still required",
                "after concatenate the substance keys of the sum are only required to start with the first system's "
                "keys, be unique, cover all reaction keys and come from the operands"]
 
@@ -417,34 +422,50 @@ def check_ctor(case, ctx):
 # sub-check 'ops': subset / + / += / concatenate once, on a generated pair of systems
 # ---------------------------------------------------------------------------
 
+def _copy_stoich(draw, target, src_sys):
+    """Insert into `target` a reaction that repeats the stoichiometry of a reaction of src_sys (with the same or
+    another parameter), or a near copy of it in which one part differs."""
+    src = G.pick(draw, src_sys["rxns"])
+    cp = {s: dict(src[s]) for s in G.SIDES}
+    near = draw(G.ints(0, 5))           # 0-2 exact copy of the stoichiometry; 3-5 near copy: one part differs
+    if near >= 3:
+        side = {3: "inact_prod", 4: "inact_reac"}.get(near) or G.pick(draw, list(G.SIDES))
+        if cp[side] and draw(G.ints(0, 1)):
+            del cp[side][sorted(cp[side])[0]]
+        else:
+            k0 = G.pick(draw, sorted(src_sys["subs"]))
+            cp[side][k0] = cp[side].get(k0, 0) + 1
+        if not G.has_effect(cp):
+            cp["prod"][src_sys["subs"][0]] = cp["prod"].get(src_sys["subs"][0], 0) + 1
+    cp.update(eq=False, ktype="plain", k=src["k"] if draw(G.ints(0, 1)) else draw(G.k_values("exact", 0)))
+    target["rxns"].insert(draw(G.ints(0, len(target["rxns"]))), cp)
+    for k in G.rxn_keys(cp):
+        if k not in target["subs"]:
+            target["subs"].append(k)
+
+
 @st.composite
 def ops_cases(draw):
     a = draw(G.systems(cls="exact", max_subs=8, max_rxns=6))
     off = draw(G.ints(0, 6))
     b = draw(G.systems(cls="exact", max_subs=8, max_rxns=5, keys=G.KEYS[off:] + G.KEYS[:off]))
     # some reactions of b repeat the stoichiometry of reactions of a (with the same or another parameter)
-    ncopy = draw(G.ints(0, 2))
-    for _ in range(ncopy):
-        src = G.pick(draw, a["rxns"])
-        cp = {s: dict(src[s]) for s in G.SIDES}
-        near = draw(G.ints(0, 5))           # 0-2 exact copy of the stoichiometry; 3-5 near copy: one part differs
-        if near >= 3:
-            side = {3: "inact_prod", 4: "inact_reac"}.get(near) or G.pick(draw, list(G.SIDES))
-            if cp[side] and draw(G.ints(0, 1)):
-                del cp[side][sorted(cp[side])[0]]
-            else:
-                k0 = G.pick(draw, sorted(a["subs"]))
-                cp[side][k0] = cp[side].get(k0, 0) + 1
-            if not G.has_effect(cp):
-                cp["prod"][a["subs"][0]] = cp["prod"].get(a["subs"][0], 0) + 1
-        cp.update(eq=False, ktype="plain", k=src["k"] if draw(G.ints(0, 1)) else draw(G.k_values("exact", 0)))
-        b["rxns"].insert(draw(G.ints(0, len(b["rxns"]))), cp)
-        for k in G.rxn_keys(cp):
-            if k not in b["subs"]:
-                b["subs"].append(k)
+    for _ in range(draw(G.ints(0, 2))):
+        _copy_stoich(draw, b, a)
     G.dedupe_params(b["rxns"])
     extra = draw(G.reactions_over(a["subs"], 2))
-    return {"a": a, "b": b, "pred": draw(preds(a["subs"])), "extra": extra}
+    # 0-3 further operands for concatenate: each repeats stoichiometries of *any* earlier operand - most often of the
+    # one just before it, i.e. of a later operand and not of the system the sum starts from - sometimes twice
+    more = []
+    for _ in range(draw(G.ints(0, 3))):
+        off = draw(G.ints(0, 8))
+        c = draw(G.systems(cls="exact", max_subs=6, max_rxns=3, keys=G.KEYS[off:] + G.KEYS[:off]))
+        earlier = [x for x in [a, b] + more if x["rxns"]]
+        for _ in range(draw(G.ints(0, 3))):
+            _copy_stoich(draw, c, earlier[len(earlier) - 1 - draw(G.ints(0, len(earlier) - 1))])
+        G.dedupe_params(c["rxns"])
+        more.append(c)
+    return {"a": a, "b": b, "pred": draw(preds(a["subs"])), "extra": extra, "more": more}
 
 
 def _build(sysd):
@@ -470,17 +491,104 @@ def check_subset_result(ctx, parent_subs, descs, objs, sel, yes, no, tag=""):
     return True
 
 
+def concat_verdicts(operand_descs):
+    """concatenate: 'Reactions with identical stoichiometries are added to a separated reactionsystem for
+    "duplicates"'.  The sum starts as the first system; every later operand is looked at in turn.  Per reaction of
+    every later operand:
+      'dup'    its four stoichiometry dicts equal those of a reaction that is in the sum when its operand's turn comes
+               (from the first system or from *any* earlier operand);
+      'sum'    not in the sum yet, and first of its stoichiometry within its own operand;
+      'either' not in the sum yet, but an earlier reaction of the *same* operand has the same stoichiometry (with another
+               parameter).  The docstring sends it to the duplicates, the implementation compares a whole operand
+               against the sum so far (as it keeps repeated stoichiometries inside the first system): the definition
+               does not decide, so both places are accepted - but exactly one of them, in order."""
+    seen = set(G.stoich_sig(r) for r in operand_descs[0])
+    out = []
+    for descs in operand_descs[1:]:
+        own, v = set(), []
+        for r in descs:
+            sig = G.stoich_sig(r)
+            if sig in seen:
+                v.append("dup")
+            elif sig in own:
+                v.append("either")
+            else:
+                v.append("sum")
+                own.add(sig)
+        seen |= own
+        out.append(v)
+    return out
+
+
+def concat_expected(total_rxns, first_objs, later_objs, verdicts):
+    """Expected reaction objects of sum and duplicates, and per later operand the indices that went to each.  An
+    'either' reaction is expected where chempy put it (it is in the sum iff it is the next reaction of the sum)."""
+    exp_sum, exp_dup, sum_idx, dup_idx = list(first_objs), [], [], []
+    for objs, v in zip(later_objs, verdicts):
+        si, di = [], []
+        for i, (o, verdict) in enumerate(zip(objs, v)):
+            if verdict == "either":
+                nxt = total_rxns[len(exp_sum)] if len(exp_sum) < len(total_rxns) else None
+                verdict = "sum" if nxt is o else "dup"
+            if verdict == "sum":
+                exp_sum.append(o)
+                si.append(i)
+            else:
+                exp_dup.append(o)
+                di.append(i)
+        sum_idx.append(si)
+        dup_idx.append(di)
+    return exp_sum, exp_dup, sum_idx, dup_idx
+
+
 def concat_model(a_descs, a_objs, b_descs, b_objs):
-    """Reactions of b whose four stoichiometry dicts equal those of a reaction already in the sum go to 'duplicates'."""
-    sigs = set(G.stoich_sig(r) for r in a_descs)
-    yes = [i for i, r in enumerate(b_descs) if G.stoich_sig(r) not in sigs]
-    no = [i for i, r in enumerate(b_descs) if G.stoich_sig(r) in sigs]
-    return yes, no
+    """Two operands without repeated stoichiometries inside b (kept for the regression corpus)."""
+    v = concat_verdicts([a_descs, b_descs])[0]
+    return [i for i, x in enumerate(v) if x != "dup"], [i for i, x in enumerate(v) if x == "dup"]
 
 
 def internal_stoich_duplicates(descs):
     sigs = [G.stoich_sig(r) for r in descs]
     return len(set(sigs)) != len(sigs)
+
+
+def check_concatenate(ctx, systems, operand_descs, operand_objs, operand_subs, tag=""):
+    """Calls concatenate on the systems (first one is consumed) and compares sum and duplicates with the list model.
+    Returns None on failure, else (total, dups, sum_idx, dup_idx)."""
+    verdicts = concat_verdicts(operand_descs)
+    flat = [x for v in verdicts for x in v]
+    later_sigs = [set(G.stoich_sig(r) for r in d) for d in operand_descs[1:]]
+    first_sigs = set(G.stoich_sig(r) for r in operand_descs[0])
+    among_later = any((later_sigs[i] & later_sigs[j]) - first_sigs
+                      for i in range(len(later_sigs)) for j in range(i + 1, len(later_sigs)))
+    ctx.label("concatenate:n=%d" % len(systems), "concatenate:dups=%s" % ("0" if "dup" not in flat else "1+"))
+    if among_later:
+        ctx.label("concatenate:repeated_among_later_operands")
+    if "either" in flat:
+        ctx.label("concatenate:repeated_inside_later_operand")
+    total, dups = type(systems[0]).concatenate(list(systems))
+    for k in range(1, len(systems)):
+        if not check_members(ctx, systems[k], operand_subs[k], operand_objs[k], "concatenate:later_operand_changed" + tag):
+            return None
+    exp_sum, exp_dup, sum_idx, dup_idx = concat_expected(list(total.rxns), operand_objs[0], operand_objs[1:], verdicts)
+    if ids(total.rxns) != ids(exp_sum):
+        ctx.fail("concatenate:sum_reactions" + tag, got=[short(str(r), 60) for r in total.rxns],
+                 expected=[short(str(r), 60) for r in exp_sum], verdicts=verdicts)
+        return None
+    if ids(dups.rxns) != ids(exp_dup):
+        ctx.fail("concatenate:duplicate_reactions" + tag, got=[short(str(r), 60) for r in dups.rxns],
+                 expected=[short(str(r), 60) for r in exp_dup], verdicts=verdicts)
+        return None
+    union = []
+    for subs in operand_subs:
+        union = merged_keys(union, subs)
+    sum_descs = list(operand_descs[0]) + [operand_descs[k + 1][i] for k, idx in enumerate(sum_idx) for i in idx]
+    dup_descs = [operand_descs[k + 1][i] for k, idx in enumerate(dup_idx) for i in idx]
+    if not check_concat_subs(ctx, list(total.substances.keys()), operand_subs[0], union, sum_descs, "concatenate:sum" + tag):
+        return None
+    if not check_concat_subs(ctx, list(dups.substances.keys()), [], union, dup_descs, "concatenate:duplicates" + tag):
+        return None
+    return total, dups, sum_idx, dup_idx
 
 
 def check_concat_subs(ctx, got_keys, first_subs, union_subs, rxn_descs, what):
@@ -541,26 +649,13 @@ def check_ops(case, ctx):
     A2 += eo
     if not check_members(ctx, A2, merged_keys(a["subs"], b["subs"]), ao2 + bo + eo, "iadd_reactions"):
         return
-    # concatenate
-    if internal_stoich_duplicates(b["rxns"]):
-        ctx.label("concatenate:skipped_internal_duplicates")
-        return
-    A3, ao3 = _build(a)
-    B3, bo3 = _build(b)
-    total, dups = type(A3).concatenate([A3, B3])
-    yes_i, no_i = concat_model(a["rxns"], ao3, b["rxns"], bo3)
-    ctx.label("concatenate:dups=%s" % ("0" if not no_i else "1+"))
-    if ids(total.rxns) != ids(ao3 + [bo3[i] for i in yes_i]):
-        ctx.fail("concatenate:sum_reactions", got=[short(str(r), 60) for r in total.rxns], kept=yes_i, moved=no_i)
-        return
-    if ids(dups.rxns) != ids([bo3[i] for i in no_i]):
-        ctx.fail("concatenate:duplicate_reactions", got=[short(str(r), 60) for r in dups.rxns], kept=yes_i, moved=no_i)
-        return
-    union = merged_keys(a["subs"], b["subs"])
-    if not check_concat_subs(ctx, list(total.substances.keys()), a["subs"], union,
-                             a["rxns"] + [b["rxns"][i] for i in yes_i], "concatenate:sum"):
-        return
-    check_concat_subs(ctx, list(dups.substances.keys()), [], union, [b["rxns"][i] for i in no_i], "concatenate:duplicates")
+    # concatenate: the pair, then all 3-5 operands (fresh objects: the first system is consumed)
+    operands = [a, b] + list(case.get("more") or [])
+    for n in sorted(set([2, len(operands)])):
+        built = [_build(x) for x in operands[:n]]
+        if check_concatenate(ctx, [x[0] for x in built], [x["rxns"] for x in operands[:n]], [x[1] for x in built],
+                             [x["subs"] for x in operands[:n]], tag="" if n == 2 else ":many") is None:
+            return
 
 
 # ---------------------------------------------------------------------------
@@ -928,29 +1023,31 @@ def apply_op(state, op, ctx):
                 return
             _verify(state, a, ctx, "iadd_system")
         else:
-            bd = _descs(state, b)
-            if internal_stoich_duplicates(bd):
-                ctx.label("op:concat_skipped")
-                return
-            yes_i, no_i = concat_model(_descs(state, a), None, bd, None)
-            total, dups = type(a["obj"]).concatenate([a["obj"], b["obj"]])
-            if not _verify(state, b, ctx, "concatenate:later_operand_changed", structure=False):
-                return
-            union = merged_keys(a["subs"], b["subs"])
-            first_subs = list(a["subs"])
+            # ["concat", i, j, k, ...]: the system i the sum starts from, then 1-4 *different* later operands
+            used, later = [ia], []
+            for x in op[2:]:
+                if len(used) == len(pool):
+                    break
+                idx = x % len(pool)
+                while idx in used:
+                    idx = (idx + 1) % len(pool)
+                used.append(idx)
+                later.append(pool[idx])
+            ctx.label("op:concat_operands=%d" % (1 + len(later)))
+            operands = [a] + later
+            res = check_concatenate(ctx, [x["obj"] for x in operands], [_descs(state, x) for x in operands],
+                                    [_objs(state, x) for x in operands], [list(x["subs"]) for x in operands])
             # the first system is consumed (chempy accumulates into it): it leaves the pool, the sum enters
             pool[:] = [x for x in pool if x is not a]      # by identity (dict == would compare ReactionSystems)
-            sum_rids = a["rids"] + [b["rids"][i] for i in yes_i]
-            dup_rids = [b["rids"][i] for i in no_i]
-            tk, dk = list(total.substances.keys()), list(dups.substances.keys())
-            if not check_concat_subs(ctx, tk, first_subs, union, [state["descs"][i] for i in sum_rids], "concatenate:sum"):
+            if res is None:
                 return
-            if not check_concat_subs(ctx, dk, [], union, [state["descs"][i] for i in dup_rids], "concatenate:duplicates"):
-                return
-            e1 = _entry(state, total, tk, sum_rids)
+            total, dups, sum_idx, dup_idx = res
+            sum_rids = a["rids"] + [x["rids"][i] for x, idx in zip(later, sum_idx) for i in idx]
+            dup_rids = [x["rids"][i] for x, idx in zip(later, dup_idx) for i in idx]
+            e1 = _entry(state, total, list(total.substances.keys()), sum_rids)
             if not _verify(state, e1, ctx, "concatenate:sum"):
                 return
-            e2 = _entry(state, dups, dk, dup_rids)
+            e2 = _entry(state, dups, list(dups.substances.keys()), dup_rids)
             _verify(state, e2, ctx, "concatenate:duplicates")
         return
     if kind == "subset":
@@ -1055,6 +1152,10 @@ def machine(ctx):
         def concat(self, i, j):
             self._do(["concat", i, j])
 
+        @rule(i=G.ints(0, 7), js=st.lists(G.ints(0, 7), min_size=2, max_size=4))
+        def concat_many(self, i, js):
+            self._do(["concat", i] + js)
+
         @rule(i=G.ints(0, 7), keep=G.ints(0, 1), data=st.data())
         def subset(self, i, keep, data):
             self._do(["subset", i, data.draw(preds(self._keys(i))), keep])
@@ -1100,7 +1201,9 @@ SUBCHECKS = [
              rule="substance order for None/set (sorted) and list/tuple/str/OrderedDict (as given); an equal reaction "
                   "twice or a reaction key missing from the substances raises ValueError"),
     SubCheck("ops", check_ops, strategy=ops_cases(), quick=500, thorough=40000,
-             rule="subset(pred), system+system, system+reactions, +=, concatenate on a generated pair of overlapping systems"),
+             rule="subset(pred), system+system, system+reactions, +=, concatenate on a generated pair of overlapping systems; "
+                  "concatenate also over 3-5 systems whose later operands repeat stoichiometries of any earlier operand "
+                  "(mostly of another later one), once or twice"),
     SubCheck("convert", check_convert, strategy=convert_cases(), quick=400, thorough=20000,
              rule="as_per_substance_array/dict, as_substance_index, per_substance_varied in substance order"),
     SubCheck("bounds", check_bounds, strategy=bounds_cases(), quick=600, thorough=50000,
@@ -1108,7 +1211,7 @@ SUBCHECKS = [
                   "along an exact null-space direction of the composition matrix stays below the bound",
              tolerances={"bound_rel": 1e-12}),
     SubCheck("machine", machine=machine, quick=300, thorough=20000, steps=(20, 40),
-             rule="histories of new / += reactions / += system / + / subset / split->part / concatenate over a pool of "
+             rule="histories of new / += reactions / += system / + / subset / split->part / concatenate (2-5 operands) over a pool of "
                   "systems; model = ordered substance keys + list of reaction ids; every result and its structural "
                   "queries are checked"),
 ]
